@@ -1,13 +1,27 @@
-"""Random kriging configurations on the real gstools API + observation by wrapping module attributes."""
+"""Random kriging configurations on the real gstools API + observation by wrapping module attributes.
+
+Also here (shared by C05 and C06): independent reference formulas for the normalizers, mean/trend/drift
+specifications, an independent solve of the kriging system built from the configuration alone (never from
+attributes of the Krige object under test), and random operation histories on one Krige object."""
 import contextlib
+import copy
+import itertools
+import warnings
 import numpy as np
 import scipy.linalg as spl
+from scipy.spatial.distance import cdist
 
 
 MODELS = ["Gaussian", "Exponential", "Spherical", "Matern", "Stable", "Cubic", "Rational", "Linear", "Circular"]
 
 
 def make_model(rng, dim, latlon=False, temporal=False, nugget=None, aniso=True, names=None):
+    with warnings.catch_warnings():
+        warnings.simplefilter("ignore")
+        return _make_model(rng, dim, latlon, temporal, nugget, aniso, names)
+
+
+def _make_model(rng, dim, latlon=False, temporal=False, nugget=None, aniso=True, names=None):
     import gstools as gs
     name = str(rng.choice(names or MODELS))
     if dim > 1 and name == "Linear":
@@ -35,18 +49,222 @@ def make_model(rng, dim, latlon=False, temporal=False, nugget=None, aniso=True, 
     return getattr(gs, name)(**kw)
 
 
-def gen_config(rng, variants=("Simple", "Ordinary", "Universal", "ExtDrift", "Detrended"), latlon_ok=True, max_n=9):
-    """returns dict describing a kriging problem (everything needed to rebuild it)"""
-    variant = str(rng.choice(variants))
-    latlon = bool(latlon_ok and rng.rand() < 0.15 and variant in ("Simple", "Ordinary"))
-    temporal = bool(rng.rand() < 0.15)
-    dim = 2 if latlon else int(rng.randint(1, 4))
-    fdim = dim + (1 if temporal else 0)
-    if fdim > 3 and not latlon:
-        temporal = False
-        fdim = dim
-    n = int(rng.randint(2, max_n + (6 if variant == "Universal" else 0)))
-    m = int(rng.randint(1, 12))
+# ------------------------------------------------------------------ normalizers: specs + independent formulas
+NORMS = ["LogNormal", "BoxCox", "BoxCoxShift", "YeoJohnson", "Modulus", "Manly"]
+NORM_LMBDA = {"BoxCox": [0.3, 0.5, 1.5, -0.5, 0.0], "BoxCoxShift": [0.3, 0.5, 1.5, -0.5, 0.0],
+              "YeoJohnson": [0.5, 1.5, 0.0, 2.0, 0.3, 2.5], "Modulus": [0.5, 1.5, 0.0, -0.5], "Manly": [0.3, -0.3, 0.5]}
+RESTRICTED = ("LogNormal", "BoxCox", "BoxCoxShift")     # normalizers whose input range is bounded below
+
+
+def gen_norm(rng, p_none=0.4, kinds=None):
+    """None (identity) or dict(kind, lmbda, shift)"""
+    if rng.rand() < p_none:
+        return None
+    kind = str(rng.choice(kinds or NORMS))
+    lm = float(rng.choice(NORM_LMBDA[kind])) if kind in NORM_LMBDA else 1.0
+    sh = float(rng.choice([0.5, 1.5, -0.25])) if kind == "BoxCoxShift" else 0.0
+    return dict(kind=kind, lmbda=lm, shift=sh)
+
+
+def make_normalizer(spec):
+    """a new gstools normalizer object for the spec (None -> None = identity)"""
+    import gstools as gs
+    if spec is None:
+        return None
+    kw = {}
+    if spec["kind"] in NORM_LMBDA:
+        kw["lmbda"] = spec["lmbda"]
+    if spec["kind"] == "BoxCoxShift":
+        kw["shift"] = spec["shift"]
+    return getattr(gs.normalizer, spec["kind"])(**kw)
+
+
+def norm_par(spec):
+    """arguments of the Lean normaliser model"""
+    from proto import fbits
+    if spec is None:
+        return dict(kind="Normalizer", lmbda=fbits([1.0])[0], shift=fbits([0.0])[0])
+    return dict(kind=spec["kind"], lmbda=fbits([spec["lmbda"]])[0], shift=fbits([spec["shift"]])[0])
+
+
+def ref_normalize(spec, x):
+    """independent formulas (textbook definitions), NaN outside the input range"""
+    x = np.asarray(x, dtype=float)
+    if spec is None:
+        return x.copy()
+    k, l, s = spec["kind"], spec["lmbda"], spec["shift"]
+    with np.errstate(all="ignore"):
+        if k == "LogNormal":
+            return np.where(x > 0, np.log(x), np.nan)
+        if k in ("BoxCox", "BoxCoxShift"):
+            xs = x + (s if k == "BoxCoxShift" else 0.0)
+            r = np.log(xs) if l == 0 else (xs ** l - 1.0) / l
+            return np.where(x > (-s if k == "BoxCoxShift" else 0.0), r, np.nan)
+        if k == "YeoJohnson":
+            xp, xm = np.maximum(x, 0), np.minimum(x, 0)
+            pos = np.log1p(xp) if l == 0 else ((xp + 1.0) ** l - 1.0) / l
+            neg = -np.log1p(-xm) if l == 2 else -((1.0 - xm) ** (2.0 - l) - 1.0) / (2.0 - l)
+            return np.where(x >= 0, pos, neg)
+        if k == "Modulus":
+            a = np.abs(x)
+            return np.sign(x) * (np.log1p(a) if l == 0 else ((a + 1.0) ** l - 1.0) / l)
+        if k == "Manly":
+            return x.copy() if l == 0 else (np.exp(l * x) - 1.0) / l
+    raise ValueError(k)
+
+
+def ref_denormalize(spec, y):
+    """independent inverse formulas, NaN outside the image of the forward map"""
+    y = np.asarray(y, dtype=float)
+    if spec is None:
+        return y.copy()
+    k, l, s = spec["kind"], spec["lmbda"], spec["shift"]
+    with np.errstate(all="ignore"):
+        if k == "LogNormal":
+            return np.exp(y)
+        if k in ("BoxCox", "BoxCoxShift"):
+            sh = s if k == "BoxCoxShift" else 0.0
+            if l == 0:
+                return np.exp(y) - sh
+            b = 1.0 + l * y
+            return np.where(b > 0, np.abs(b) ** (1.0 / l), np.nan) - sh
+        if k == "YeoJohnson":
+            yp, ym = np.maximum(y, 0), np.minimum(y, 0)
+            pos = np.expm1(yp) if l == 0 else (l * yp + 1.0) ** (1.0 / l) - 1.0
+            neg = -np.expm1(-ym) if l == 2 else 1.0 - (1.0 - (2.0 - l) * ym) ** (1.0 / (2.0 - l))
+            return np.where(y >= 0, pos, neg)
+        if k == "Modulus":
+            a = np.abs(y)
+            return np.sign(y) * (np.expm1(a) if l == 0 else (1.0 + l * a) ** (1.0 / l) - 1.0)
+        if k == "Manly":
+            if l == 0:
+                return y.copy()
+            b = 1.0 + l * y
+            return np.where(b > 0, np.log(np.abs(b)), np.nan) / l
+    raise ValueError(k)
+
+
+def gauss_range(spec):
+    """(lo, hi) interval of normalised values that the inverse map accepts with a safety margin"""
+    if spec is None:
+        return -np.inf, np.inf
+    k, l = spec["kind"], spec["lmbda"]
+    if k in ("BoxCox", "BoxCoxShift", "Manly") and l != 0:
+        return (-0.8 / l, np.inf) if l > 0 else (-np.inf, 0.8 / abs(l))
+    if k in ("YeoJohnson", "Modulus") and l < 0:
+        return -0.8 / abs(l), 0.8 / abs(l)
+    if k == "YeoJohnson" and l > 2:
+        return -0.8 / (l - 2), np.inf
+    return -np.inf, np.inf
+
+
+# ------------------------------------------------------------------ mean / trend / drift functions as data
+def pos_scale(cfg):
+    if cfg["latlon"]:
+        return np.array([90.0, 180.0, 4.0][: cfg["fdim"]])
+    return np.full(cfg["fdim"], 8.0)
+
+
+def gen_func(rng, fdim, amp, kinds=("none", "const", "lin", "sin"), p=None):
+    """None | ("const", c) | ("lin", a0, coefs) | ("sin", a0, b, w): functions of the scaled coordinates"""
+    k = str(rng.choice(kinds, p=p))
+    if k == "none":
+        return None
+    a0 = float(np.round(rng.uniform(-1, 1) * amp, 3))
+    if k == "const":
+        return ("const", a0 if a0 != 0 else 0.25 * amp)
+    if k == "lin":
+        return ("lin", a0, [float(c) for c in np.round(rng.uniform(-1, 1, fdim) * amp, 3)])
+    return ("sin", a0, float(np.round(rng.uniform(0.3, 1) * amp, 3)), float(rng.choice([2.0, 3.0, 5.0])))
+
+
+def func_of(spec, scale):
+    """the python object handed to gstools: None, a float, or a callable f(x, [y, z])"""
+    if spec is None:
+        return None
+    if spec[0] == "const":
+        return float(spec[1])
+    if spec[0] == "lin":
+        a0, c = spec[1], list(spec[2])
+        return lambda *x: a0 + sum(ci * np.asarray(xi, dtype=float) / si for ci, xi, si in zip(c, x, scale))
+    if spec[0] == "sin":
+        a0, b, w = spec[1:]
+        return lambda *x: a0 + b * np.sin(w * np.asarray(x[0], dtype=float) / scale[0]) \
+            + 0.5 * b * np.asarray(x[-1], dtype=float) / scale[-1]
+    raise ValueError(spec)
+
+
+def eval_spec(spec, pos, scale):
+    """values of a mean/trend spec at raw positions (dim, m) -> (m,)"""
+    pos = np.asarray(pos, dtype=float)
+    m = pos.shape[1]
+    f = func_of(spec, scale)
+    if f is None:
+        return np.zeros(m)
+    if not callable(f):
+        return np.full(m, f)
+    return np.broadcast_to(np.asarray(f(*pos), dtype=float), (m,)).copy()
+
+
+def drift_callables(cfg):
+    """drift functions of the configuration as an independent list of callables (own monomial basis for the
+    polynomial drifts, the user functions for custom drifts)"""
+    d = cfg.get("drift")
+    if d is None:
+        return []
+    if isinstance(d, tuple):    # ("custom", [specs])
+        return [custom_drift(sp) for sp in d[1]]
+    order = {"linear": 1, "quadratic": 2}.get(d, d)
+    out = []
+    for deg in range(1, int(order) + 1):
+        for sel in itertools.combinations_with_replacement(range(cfg["fdim"]), deg):
+            out.append(lambda *x, _s=sel: np.prod([np.asarray(x[i], dtype=float) for i in _s], axis=0))
+    return out
+
+
+def custom_drift(sp):
+    if sp[0] == "coord":
+        i = sp[1]
+        return lambda *x: np.asarray(x[i], dtype=float)
+    if sp[0] == "sinmix":
+        return lambda *x: np.sin(np.asarray(x[0], dtype=float)) + 0.5 * np.asarray(x[-1], dtype=float)
+    if sp[0] == "sq":
+        i = sp[1]
+        return lambda *x: 0.1 * np.asarray(x[i], dtype=float) ** 2
+    raise ValueError(sp)
+
+
+def drift_arg(cfg):
+    """the `drift_functions` argument handed to gstools"""
+    d = cfg.get("drift")
+    if isinstance(d, tuple):
+        fs = [custom_drift(sp) for sp in d[1]]
+        return fs[0] if (len(fs) == 1 and d[2]) else fs     # a single callable may be passed bare
+    return d
+
+
+def is_unbiased(cfg):
+    v = cfg["variant"]
+    if v in ("Simple", "Detrended"):
+        return False
+    if v == "Krige":
+        return bool(cfg["unbiased"])
+    return True
+
+
+def gen_values(rng, cfg, cp):
+    """conditioning values that are valid for the configuration's normaliser / mean / trend:
+    value = trend + denormalize(mean + gaussian)"""
+    n = cp.shape[1]
+    sc = pos_scale(cfg)
+    if cfg.get("norm") is None:
+        return rng.randn(n) * 2 + 1
+    lo, hi = gauss_range(cfg["norm"])
+    y = np.clip(np.clip(rng.randn(n) * 0.6, -1.3, 1.3) + eval_spec(cfg.get("mean"), cp, sc), lo, hi)
+    return eval_spec(cfg.get("trend"), cp, sc) + ref_denormalize(cfg["norm"], y)
+
+
+def gen_positions(rng, latlon, temporal, fdim, n, m):
     if latlon:
         cp = np.vstack([rng.uniform(-80, 80, n), rng.uniform(-170, 170, n)] + ([rng.uniform(0, 4, n)] if temporal else []))
         tp = np.vstack([rng.uniform(-80, 80, m), rng.uniform(-170, 170, m)] + ([rng.uniform(0, 4, m)] if temporal else []))
@@ -57,8 +275,36 @@ def gen_config(rng, variants=("Simple", "Ordinary", "Universal", "ExtDrift", "De
         n = len(idx)
         cp = grid[:, idx] * 2.0 + rng.uniform(-0.4, 0.4, size=(fdim, n))
         tp = rng.uniform(-1, 7, size=(fdim, m))
-    cv = rng.randn(n) * 2 + 1
-    cfg = dict(variant=variant, latlon=latlon, temporal=temporal, dim=dim, fdim=fdim, cond_pos=cp, cond_val=cv,
+    return cp, tp
+
+
+VARIANTS = ("Simple", "Ordinary", "Universal", "ExtDrift", "Detrended", "Krige")
+VARIANT_WEIGHT = {"Simple": 0.2, "Ordinary": 0.13, "Universal": 0.17, "ExtDrift": 0.15, "Detrended": 0.1, "Krige": 0.25}
+
+
+def gen_config(rng, variants=VARIANTS, latlon_ok=True, max_n=9, mnt=True):
+    """returns dict describing a kriging problem (everything needed to rebuild it).
+    mnt=True: non-identity normalizers, constant / callable means and trends wherever the variant accepts them"""
+    pv = np.array([VARIANT_WEIGHT[v] for v in variants], dtype=float)
+    variant = str(rng.choice(variants, p=pv / pv.sum()))
+    generic = variant == "Krige"
+    latlon = bool(latlon_ok and rng.rand() < 0.15 and variant in ("Simple", "Ordinary", "Krige"))
+    temporal = bool(rng.rand() < 0.15)
+    dim = 2 if latlon else int(rng.randint(1, 4))
+    fdim = dim + (1 if temporal else 0)
+    if fdim > 3 and not latlon:
+        temporal = False
+        fdim = dim
+    # the generic class is drawn as one of the classical systems or a free combination of the options
+    shape = str(rng.choice(["simple", "ordinary", "universal", "extdrift", "free"])) if generic else variant.lower()
+    if latlon and shape in ("universal", "extdrift", "free"):
+        shape = "ordinary"
+    wants_drift = variant == "Universal" or shape in ("universal", "free")
+    n = int(rng.randint(2, max_n + (6 if wants_drift else 0)))
+    m = int(rng.randint(1, 12))
+    cp, tp = gen_positions(rng, latlon, temporal, fdim, n, m)
+    n = cp.shape[1]
+    cfg = dict(variant=variant, latlon=latlon, temporal=temporal, dim=dim, fdim=fdim, cond_pos=cp,
                pos=tp, seed=int(rng.randint(0, 2**31 - 1)))
     cfg["exact"] = bool(rng.rand() < 0.3)
     cfg["cond_err"] = "nugget"
@@ -66,24 +312,67 @@ def gen_config(rng, variants=("Simple", "Ordinary", "Universal", "ExtDrift", "De
         cfg["cond_err"] = float(rng.choice([0.0, 0.0625])) if rng.rand() < 0.5 else (rng.randint(0, 3, n) / 16.0)
     cfg["drift"] = None
     cfg["ext"] = None
-    if variant == "Universal":
-        ch = str(rng.choice(["linear", "linear", "1", "0", "quadratic"])) if n > fdim + 2 else "0"
+    cfg["unbiased"] = None
+    if generic:
+        cfg["unbiased"] = {"simple": False, "ordinary": True, "universal": True, "extdrift": True}.get(shape, bool(rng.rand() < 0.5))
+    if wants_drift:
+        ch = str(rng.choice(["linear", "linear", "1", "0", "quadratic", "custom", "custom"])) if n > fdim + 2 else "0"
         if ch == "quadratic" and n <= (fdim + 1) * (fdim + 2) // 2 + 1:
             ch = "linear"
-        cfg["drift"] = ch if ch in ("linear", "quadratic") else int(ch)
-    if variant == "ExtDrift":
-        k = int(rng.randint(1, 3)) if n > 3 else 1
-        cfg["ext"] = (rng.randn(k, n), rng.randn(k, m))
-    cfg["mean"] = float(rng.choice([0.0, 1.5])) if variant == "Simple" else None
-    cfg["trend"] = None
+        if ch == "custom":
+            pool = [("coord", int(rng.randint(0, fdim))), ("sinmix",), ("sq", int(rng.randint(0, fdim)))]
+            k = int(rng.randint(1, 3))
+            sel = [pool[i] for i in rng.permutation(3)[:k]]
+            cfg["drift"] = ("custom", sel, bool(rng.rand() < 0.5))
+        else:
+            cfg["drift"] = ch if ch in ("linear", "quadratic") else int(ch)
+        if generic and cfg["drift"] == 0:
+            cfg["drift"] = None
+    if variant == "ExtDrift" or shape == "extdrift" or (shape == "free" and rng.rand() < 0.4):
+        room = n - len(drift_callables(cfg)) - 3
+        k = int(rng.randint(1, 3)) if room >= 2 else 1
+        if room >= 1 or shape != "free":
+            cfg["ext"] = (rng.randn(k, n), rng.randn(k, m))
+    # mean / normalizer / trend wherever the variant accepts them
+    cfg["mean"], cfg["norm"], cfg["trend"] = None, None, None
+    takes_mean = variant == "Simple" or generic
+    takes_norm = variant != "Detrended"
     if variant == "Detrended":
-        a = float(rng.choice([0.5, -1.0]))
-        cfg["trend_coef"] = a
+        cfg["trend"] = gen_func(rng, fdim, 1.0, kinds=("lin", "sin"))
+    if mnt:
+        if takes_mean:
+            cfg["mean"] = gen_func(rng, fdim, 0.6, p=[0.25, 0.3, 0.25, 0.2])
+        if takes_norm:
+            cfg["norm"] = gen_norm(rng)
+        if variant != "Detrended":
+            cfg["trend"] = gen_func(rng, fdim, 1.0, p=[0.4, 0.15, 0.25, 0.2])
+    elif variant == "Simple":
+        cfg["mean"] = ("const", 1.5) if rng.rand() < 0.5 else None
+    cfg["cond_val"] = gen_values(rng, cfg, cp)
     cfg["pinv"] = bool(rng.rand() < 0.5)
     cfg["pinv_type"] = str(rng.choice(["pinv", "pinvh"]))
     cfg["chunk"] = None if rng.rand() < 0.4 else int(rng.randint(1, m + 2))
     cfg["model_seed"] = int(rng.randint(0, 2**31 - 1))
     return cfg
+
+
+def describe(cfg):
+    """JSON-friendly description of a configuration"""
+    out = {}
+    for k, v in cfg.items():
+        if k == "ext":
+            out[k] = None if v is None else [np.asarray(a).tolist() for a in v]
+        elif isinstance(v, np.ndarray):
+            out[k] = v.tolist()
+        else:
+            out[k] = v
+    return out
+
+
+def mnt_tag(cfg):
+    """which of mean / normalizer / trend are active: e.g. 'norm=BoxCox/mean=lin/trend=none'"""
+    f = lambda s: "none" if s is None else s[0]
+    return f"norm={'none' if cfg.get('norm') is None else cfg['norm']['kind']}/mean={f(cfg.get('mean'))}/trend={f(cfg.get('trend'))}"
 
 
 def build(cfg, capture=None, cond_pos=None, cond_val=None, ext_cond=None, model=None):
@@ -103,18 +392,24 @@ def build(cfg, capture=None, cond_pos=None, cond_val=None, ext_cond=None, model=
                 return spl.inv(mat)
             return spl.pinv(mat) if _t == "pinv" else spl.pinvh(mat)
         kw.update(pseudo_inv=True, pseudo_inv_type=cap)
+    sc = pos_scale(cfg)
+    mean, trend = func_of(cfg.get("mean"), sc), func_of(cfg.get("trend"), sc)
+    nt = dict(normalizer=make_normalizer(cfg.get("norm")), trend=trend)
+    ext = None if cfg["ext"] is None else (cfg["ext"][0] if ext_cond is None else ext_cond)
     v = cfg["variant"]
     if v == "Simple":
-        return krige.Simple(model, cp, cv, mean=cfg["mean"], **kw)
+        return krige.Simple(model, cp, cv, mean=0.0 if mean is None else mean, **nt, **kw)
     if v == "Ordinary":
-        return krige.Ordinary(model, cp, cv, **kw)
+        return krige.Ordinary(model, cp, cv, **nt, **kw)
     if v == "Universal":
-        return krige.Universal(model, cp, cv, drift_functions=cfg["drift"], **kw)
+        return krige.Universal(model, cp, cv, drift_functions=drift_arg(cfg), **nt, **kw)
     if v == "ExtDrift":
-        return krige.ExtDrift(model, cp, cv, ext_drift=cfg["ext"][0] if ext_cond is None else ext_cond, **kw)
+        return krige.ExtDrift(model, cp, cv, ext_drift=ext, **nt, **kw)
     if v == "Detrended":
-        a = cfg["trend_coef"]
-        return krige.Detrended(model, cp, cv, trend=lambda *x: a * x[0], **kw)
+        return krige.Detrended(model, cp, cv, trend=trend, **kw)
+    if v == "Krige":
+        return krige.Krige(model, cp, cv, drift_functions=drift_arg(cfg), ext_drift=ext, mean=mean,
+                           unbiased=cfg["unbiased"], **nt, **kw)
     raise ValueError(v)
 
 
@@ -143,7 +438,322 @@ def capture_kernel(store):
 def call(kr, cfg, pos=None, **kw):
     pos = cfg["pos"] if pos is None else pos
     args = dict(chunk_size=cfg["chunk"])
-    if cfg["variant"] == "ExtDrift":
+    if cfg["ext"] is not None:
         args["ext_drift"] = cfg["ext"][1]
     args.update(kw)
     return kr(pos, **args)
+
+
+# ------------------------------------------------------------------ independent solve (from the configuration alone)
+def cond_err_of(cfg, model, n):
+    ce = cfg["cond_err"]
+    if isinstance(ce, str):
+        return np.full(n, float(model.nugget))
+    return np.broadcast_to(np.asarray(ce, dtype=float), (n,)).copy()
+
+
+def prepared_data(cfg, cond_pos=None, cond_val=None):
+    """normalize(cond_val - trend(cond_pos)) - mean(cond_pos), with the reference formulas"""
+    cp = cfg["cond_pos"] if cond_pos is None else cond_pos
+    cv = cfg["cond_val"] if cond_val is None else cond_val
+    sc = pos_scale(cfg)
+    return ref_normalize(cfg.get("norm"), cv - eval_spec(cfg.get("trend"), cp, sc)) - eval_spec(cfg.get("mean"), cp, sc)
+
+
+def ref_post(cfg, raw, pos):
+    """trend(pos) + denormalize(mean(pos) + raw), with the reference formulas"""
+    sc = pos_scale(cfg)
+    pos = np.asarray(pos, dtype=float).reshape(cfg["fdim"], -1)
+    raw = np.asarray(raw, dtype=float)
+    y = raw.reshape(-1) + eval_spec(cfg.get("mean"), pos, sc)
+    return (eval_spec(cfg.get("trend"), pos, sc) + ref_denormalize(cfg.get("norm"), y)).reshape(raw.shape)
+
+
+def solve_direct(cfg, model, pos, ext_t=None, only_mean=False):
+    """kriging by solving the system with numpy for each target.  Everything is derived from the configuration
+    (variant, drift, errors, exact flag, mean / normalizer / trend specs) and the covariance model; nothing is
+    read from a Krige object.  Returns dict(raw, var, cond, z)."""
+    cp = np.asarray(cfg["cond_pos"], dtype=float)
+    n = cp.shape[1]
+    tp = np.asarray(pos, dtype=float).reshape(cfg["fdim"], -1)
+    m = tp.shape[1]
+    cp_iso, tp_iso = model.isometrize(cp), model.isometrize(tp)
+    C = model.covariance(cdist(cp_iso.T, cp_iso.T)) + np.diag(cond_err_of(cfg, model, n))
+    rows, trows = [], []
+    if is_unbiased(cfg):
+        rows.append(np.ones(n)); trows.append(np.ones(m))
+    for f in drift_callables(cfg):
+        rows.append(np.broadcast_to(f(*cp), (n,))); trows.append(np.broadcast_to(f(*tp), (m,)))
+    if cfg["ext"] is not None:
+        et = cfg["ext"][1] if ext_t is None else ext_t
+        for a, b in zip(np.atleast_2d(cfg["ext"][0]), np.atleast_2d(et)):
+            rows.append(a); trows.append(b)
+    r = len(rows)
+    B = np.array(rows, dtype=float).reshape(r, n)
+    K = np.block([[C, B.T], [B, np.zeros((r, r))]])
+    cf = model.cov_nugget if cfg["exact"] else model.covariance
+    ck = np.zeros((n, m)) if only_mean else cf(cdist(cp_iso.T, tp_iso.T))
+    k = np.vstack([ck, np.array(trows, dtype=float).reshape(r, m)])
+    z = np.concatenate([prepared_data(cfg), np.zeros(r)])
+    W = np.linalg.solve(K, k)
+    return dict(raw=z @ W, var=np.maximum(model.sill - np.einsum("ij,ij->j", k, W), 0), cond=float(np.linalg.cond(K)), z=z)
+
+
+def rebuild_model(m):
+    """a new model object with the parameters read back from `m` (public attributes only); None if the copy
+    does not compare equal (then the case is not used)"""
+    kw = dict(var=float(m.var), len_scale=float(m.len_scale), nugget=float(m.nugget))
+    for a in m.opt_arg:
+        kw[a] = getattr(m, a)
+    if m.latlon:
+        kw.update(latlon=True, geo_scale=float(m.geo_scale))
+        if m.temporal:
+            kw.update(temporal=True, anis=float(m.anis[-1]))
+    else:
+        if m.temporal:
+            kw.update(temporal=True, spatial_dim=int(m.spatial_dim))
+        else:
+            kw["dim"] = int(m.dim)
+        if m.dim > 1:
+            kw.update(anis=[float(a) for a in m.anis], angles=[float(a) for a in m.angles])
+    try:
+        with warnings.catch_warnings():
+            warnings.simplefilter("ignore")
+            c = type(m)(**kw)
+    except Exception:
+        return None
+    same = (c == m and c.var == m.var and c.len_scale == m.len_scale and c.nugget == m.nugget
+            and np.array_equal(c.anis, m.anis) and np.array_equal(c.angles, m.angles)
+            and c.geo_scale == m.geo_scale and c.rescale == m.rescale)
+    return c if same else None
+
+
+# ------------------------------------------------------------------ operation histories on one Krige object
+class History:
+    """A random history of {model edits, mean/normalizer/trend re-assignments, set_condition in all argument forms,
+    calls} on ONE Krige object.  `cur` is the configuration a freshly constructed object would be given now;
+    `ops` is the same history over abstract version identifiers for the Lean protocol model (krige_history)."""
+
+    def __init__(self, rng, cfg, zero_mode=None):
+        self.rng = rng
+        self.cur = copy.deepcopy(cfg)
+        self.zero_mode = zero_mode          # C06: None | "exact" | "zero-err" | "no-nugget"
+        self.kr = build(cfg, model=make_hist_model(cfg, zero_mode))
+        self.counter = 1
+        self.init_ids = dict(model=1, pos=1, val=1, err=1, ext=1 if cfg["ext"] is not None else 0, mnt=1)
+        self.ops = []
+        self.log = []
+        self.stale = False       # a model edit happened after the last set_condition
+        self.need_val = False    # the current values may be outside the range of the current normalizer / trend
+        self.last_sel = None     # indices of the conditioning points the last on-data call was placed on
+
+    def _id(self):
+        self.counter += 1
+        return self.counter
+
+    # -- model edits
+    def edit_model(self):
+        rng, kr, cfg = self.rng, self.kr, self.cur
+        m = kr.model
+        kinds = ["len_scale", "var", "replace"]
+        if self.zero_mode != "no-nugget":
+            kinds.append("nugget")
+        if not cfg["latlon"] and cfg["fdim"] > 1:
+            kinds += ["anis", "angles"]
+        k = str(rng.choice(kinds))
+        if k == "len_scale":
+            m.len_scale = float(m.len_scale) * float(rng.choice([0.5, 1.5, 2.0]))
+        elif k == "var":
+            m.var = float(m.var) * float(rng.choice([0.5, 2.0, 3.0]))
+        elif k == "nugget":
+            m.nugget = float(rng.choice([v for v in (0.0, 0.125, 0.5, 0.75) if v != m.nugget]))
+        elif k == "anis":
+            m.anis = [float(a) for a in rng.choice([0.25, 0.5, 2.0, 3.0], size=cfg["fdim"] - 1)]
+        elif k == "angles":
+            m.angles = [float(a) for a in rng.uniform(-1.5, 1.5, size=cfg["fdim"] * (cfg["fdim"] - 1) // 2)]
+        else:
+            kr.model = make_model(rng, cfg["dim"], cfg["latlon"], cfg["temporal"],
+                                  nugget=0.0 if self.zero_mode == "no-nugget" else None)
+        self.stale = True
+        self.ops.append(dict(k="model", v=self._id()))
+        self.log.append("model:" + k)
+
+    # -- mean / normalizer / trend re-assignment
+    def edit_mnt(self):
+        rng, kr, cfg = self.rng, self.kr, self.cur
+        v = cfg["variant"]
+        kinds = []
+        if v in ("Simple", "Krige"):
+            kinds.append("mean")
+        if v != "Detrended":
+            kinds += ["norm", "trend"]
+        else:
+            kinds.append("trend")
+        k = str(rng.choice(kinds))
+        sc = pos_scale(cfg)
+        if k == "mean":
+            cfg["mean"] = gen_func(rng, cfg["fdim"], 0.6, kinds=("const", "lin", "sin"))
+            kr.mean = func_of(cfg["mean"], sc)
+            lo, hi = gauss_range(cfg.get("norm"))
+            self.need_val |= np.isfinite(lo) or np.isfinite(hi)
+        elif k == "trend":
+            cfg["trend"] = gen_func(rng, cfg["fdim"], 1.0, kinds=("const", "lin", "sin") if v == "Detrended" else ("none", "const", "lin", "sin"))
+            kr.trend = func_of(cfg["trend"], sc)
+            self.need_val |= cfg.get("norm") is not None and cfg["norm"]["kind"] in RESTRICTED
+        else:
+            cfg["norm"] = gen_norm(rng, p_none=0.25)
+            kr.normalizer = make_normalizer(cfg["norm"])
+            self.need_val |= cfg["norm"] is not None
+        self.ops.append(dict(k="mnt", v=self._id()))
+        self.log.append("mnt:" + k)
+
+    # -- set_condition in its argument forms
+    def set_condition(self, form=None):
+        rng, kr, cfg = self.rng, self.kr, self.cur
+        forms = ["none", "val", "pos+val", "val+err", "all", "err"]
+        if cfg["ext"] is not None:
+            forms += ["ext", "pos+val+ext"]
+        else:
+            forms.append("pos+val")
+        if self.need_val:
+            forms = [f for f in forms if "val" in f or f == "all"]
+        form = str(rng.choice(forms)) if form is None else form
+        n = cfg["cond_pos"].shape[1]
+        kw, op = {}, dict(k="set_condition")
+        if form in ("pos+val", "pos+val+ext", "all"):
+            arr_err = isinstance(cfg["cond_err"], np.ndarray)
+            n_new = n if (arr_err and form != "all") or rng.rand() < 0.5 else int(rng.randint(max(2, n - 2), n + 3))
+            cp, _ = gen_positions(rng, cfg["latlon"], cfg["temporal"], cfg["fdim"], n_new, 1)
+            if arr_err and form != "all" and cp.shape[1] != n:
+                cp = cfg["cond_pos"] + rng.uniform(-0.2, 0.2, size=cfg["cond_pos"].shape)
+            kw["cond_pos"] = cp
+            cfg["cond_pos"] = cp
+            op["pos"] = self._id()
+            n = cp.shape[1]
+        if "val" in form or form == "all":
+            cv = gen_values(rng, cfg, cfg["cond_pos"])
+            kw["cond_val"] = cv
+            cfg["cond_val"] = cv
+            op["val"] = self._id()
+            self.need_val = False
+        if form in ("ext", "pos+val+ext", "all") and cfg["ext"] is not None:
+            k = cfg["ext"][0].shape[0]
+            e = rng.randn(k, n)
+            kw["ext_drift"] = e
+            cfg["ext"] = (e, None)
+            op["ext"] = self._id()
+        elif "cond_pos" in kw and cfg["ext"] is not None:
+            cfg["ext"] = None          # documented: the stored drift is only reused when no new positions are given
+        if form in ("val+err", "all", "err"):
+            if cfg["exact"] or self.zero_mode == "no-nugget":
+                ce = "nugget"
+            elif self.zero_mode == "zero-err":
+                ce = 0.0
+            else:
+                ce = [float(rng.choice([0.0, 0.0625, 0.125])), rng.randint(0, 3, n) / 16.0, "nugget"][int(rng.randint(0, 3))]
+            kw["cond_err"] = ce
+            cfg["cond_err"] = ce
+            op["err"] = self._id()
+        if rng.rand() < 0.3 and "cond_pos" in kw and "cond_val" in kw:   # positional form
+            args = [kw.pop("cond_pos"), kw.pop("cond_val")]
+        else:
+            args = []
+        kr.set_condition(*args, **kw)
+        self.stale = False
+        self.ops.append(op)
+        self.log.append("set_condition:" + form)
+        return form
+
+    # -- calls
+    def call_args(self, on_data=False):
+        rng, cfg = self.rng, self.cur
+        m = int(rng.randint(1, 9))
+        _, tp = gen_positions(rng, cfg["latlon"], cfg["temporal"], cfg["fdim"], 2, m)
+        self.last_sel = None
+        if on_data or rng.rand() < 0.25:
+            k = cfg["cond_pos"].shape[1]
+            sel = rng.permutation(k)[: max(1, k // 2)]
+            tp = cfg["cond_pos"][:, sel].copy() if on_data else np.hstack([cfg["cond_pos"][:, sel], tp])
+            self.last_sel = sel if on_data else None
+        m = tp.shape[1]
+        kw = dict(chunk_size=None if rng.rand() < 0.4 else int(rng.randint(1, m + 2)),
+                  only_mean=bool(rng.rand() < 0.15), return_var=bool(rng.rand() < 0.7),
+                  post_process=bool(rng.rand() < 0.6), store=bool(rng.rand() < 0.5))
+        if on_data:
+            kw.update(only_mean=False, return_var=True, post_process=True)
+        if cfg["ext"] is not None:
+            kw["ext_drift"] = rng.randn(cfg["ext"][0].shape[0], m)
+            if self.last_sel is not None:     # targets on the data carry the data's external drift
+                kw["ext_drift"] = np.asarray(cfg["ext"][0])[:, self.last_sel].copy()
+        return tp, kw
+
+    def call(self, tp, kw, obj=None):
+        """returns ("ok", field, var-or-None) or ("error", type name)"""
+        kr = self.kr if obj is None else obj
+        try:
+            with warnings.catch_warnings():
+                warnings.simplefilter("ignore")
+                out = kr(tp, **kw)
+        except Exception as e:
+            return ("error", type(e).__name__)
+        if isinstance(out, tuple):
+            return ("ok", np.array(out[0]), np.array(out[1]))
+        return ("ok", np.array(out), None)
+
+    def record_call(self):
+        self.ops.append(dict(k="call"))
+
+    def fresh(self):
+        """a freshly constructed object with the current model parameters and conditions (or None)"""
+        mod = rebuild_model(self.kr.model)
+        if mod is None:
+            return None, None
+        with warnings.catch_warnings():
+            warnings.simplefilter("ignore")
+            return build(self.cur, model=mod), mod
+
+
+def make_hist_model(cfg, zero_mode):
+    mr = np.random.RandomState(cfg["model_seed"])
+    return make_model(mr, cfg["dim"], cfg["latlon"], cfg["temporal"], nugget=0.0 if zero_mode == "no-nugget" else None)
+
+
+def run_history(rng, cfg, segments=3, zero_mode=None):
+    """generator: drives one History and yields, for every call made, a dict
+    (hist, tp, kw, res, synced, step).  Calls in a stale state (model edited, no set_condition yet) are made and
+    yielded with synced=False (nothing is claimed about them)."""
+    with warnings.catch_warnings():
+        warnings.simplefilter("ignore")
+        h = History(rng, cfg, zero_mode)
+    step = 0
+    for seg in range(segments):
+        # calls on the synced object (first segment: the freshly constructed one)
+        for _ in range(int(rng.randint(1, 3))):
+            if h.need_val:
+                break
+            tp, kw = h.call_args(on_data=bool(zero_mode) and rng.rand() < 0.5)
+            res = h.call(tp, kw)
+            h.record_call()
+            step += 1
+            yield dict(hist=h, tp=tp, kw=kw, res=res, synced=True, step=step, sel=h.last_sel)
+        # edits
+        ne = int(rng.randint(0, 3))
+        for _ in range(ne):
+            with warnings.catch_warnings():
+                warnings.simplefilter("ignore")
+                (h.edit_model if rng.rand() < 0.7 else h.edit_mnt)()
+            if rng.rand() < 0.3 and not h.need_val:      # a call between the edits and set_condition
+                tp, kw = h.call_args()
+                res = h.call(tp, kw)
+                h.record_call()
+                step += 1
+                yield dict(hist=h, tp=tp, kw=kw, res=res, synced=not h.stale, step=step, sel=None)
+        with warnings.catch_warnings():
+            warnings.simplefilter("ignore")
+            h.set_condition()
+    for _ in range(int(rng.randint(1, 3))):
+        tp, kw = h.call_args(on_data=bool(zero_mode) and rng.rand() < 0.5)
+        res = h.call(tp, kw)
+        h.record_call()
+        step += 1
+        yield dict(hist=h, tp=tp, kw=kw, res=res, synced=True, step=step, sel=h.last_sel)
